@@ -119,6 +119,7 @@ def network_simplex(
             state[arc] = 0
 
     iterations = 0
+    converged = False
 
     while iterations < max_iter:
         iterations += 1
@@ -141,7 +142,8 @@ def network_simplex(
                 entering = arc
 
         if entering == -1:
-            break  # Optimal: no improving arc found
+            converged = True  # Optimal: no improving arc found
+            break
 
         u, v = source[entering], target[entering]
         rc = cost[entering] - pi[u] + pi[v]
@@ -246,6 +248,10 @@ def network_simplex(
                         else:
                             pi[child] = pi[p] - cost[arc]
                         stack.append(child)
+
+    if not converged:
+        # max_iter ran out mid-pivoting: the current basis proves neither optimality nor infeasibility
+        return Result(None, float("inf"), iterations, total_arcs, Status.MAX_ITER)
 
     for arc in range(m, total_arcs):
         if flow[arc] > 0:
